@@ -902,3 +902,173 @@ def r01_7(ctx):
     """directive output reaches the file only through the formatter; ordinary lines only through tag injection (= C16 R16.2)"""
     import rules_text
     rules_text.r16_2(ctx)
+
+
+# ------------------------------------------------------------------ R11.7: dotted-component accounting in remove_txtpp
+# Abstract interpretation over the (acyclic) body: for the working copy of the path, the set of possible differences in the
+# number of dot-separated name components relative to the input.  std semantics: set_extension("") removes the last component
+# (the guards in the function guarantee there is one); set_extension(x), x non-empty, REPLACES the last component when the name
+# still has one and APPENDS otherwise -> {d, d+1}; pushing "." and an extension onto the OsString appends -> d+1.
+
+SET_EXT = "std::path::PathBuf::set_extension"
+
+
+def _component_deltas(prog, b):
+    flags = sorted(C.tracked_flags(b))
+    fidx = {l: i for i, l in enumerate(flags)}
+    results = []      # (bb of the Ok return, frozenset deltas | None for unknown)
+    p_self = 1
+
+    def step_block(bb, st, env):
+        """apply the statements + terminator effects of block bb to the abstract state `st` (dict local -> (deltas, dot_pending))"""
+        st = dict(st)
+        env = list(env)
+        blk = b.blocks[bb]
+        for s_ in blk["stmts"]:
+            if s_["k"] != "assign":
+                continue
+            lhs, rv = s_["lhs"], s_["rv"]
+            if not lhs["p"] and lhs["l"] in fidx and rv["k"] == "use":
+                op = rv["op"]
+                env[fidx[lhs["l"]]] = (C.op_const(op) == "true") if op["k"] == "const" else env[fidx[op["pl"]["l"]]]
+            if rv["k"] == "use" and not lhs["p"]:
+                src = C.op_place(rv["op"])
+                if src is not None and not src["p"] and src["l"] in st:
+                    st[lhs["l"]] = st[src["l"]]
+            if rv["k"] == "aggregate" and lhs["l"] == 0 and rv["agg"].get("variant") == "Ok":
+                src = C.op_place(rv["ops"][0])
+                if src is not None and src["l"] in st:
+                    results.append((bb, st[src["l"]][0]))
+                else:
+                    results.append((bb, None))
+        t = blk["term"]
+        if t["k"] == "call":
+            nm = C.callee_name(t)
+            dest = t["dest"]["l"]
+
+            def target(i):
+                """the tracked local behind argument i (through `&mut p` temporaries)"""
+                for l in C.trace(b, t["args"][i]):
+                    pass
+                p = C.op_place(t["args"][i])
+                seen = set()
+                while p is not None and p["l"] not in seen:
+                    seen.add(p["l"])
+                    if p["l"] in st and all(e["k"] == "deref" for e in p["p"]):
+                        return p["l"]
+                    ds = [r for r in b.defs().get(p["l"], []) if r[0] in ("assign", "call")]
+                    if len(ds) != 1:
+                        return None
+                    if ds[0][0] == "call":
+                        t2 = ds[0][2]
+                        if C.callee_name(t2) in ("std::path::Path::as_os_str", "std::path::PathBuf::as_path", "<std::path::PathBuf as std::ops::Deref>::deref",
+                                                 "std::convert::AsRef::as_ref", "std::ffi::OsString::as_os_str",
+                                                 "<std::ffi::OsString as std::ops::Deref>::deref") and t2["args"]:
+                            p = C.op_place(t2["args"][0])
+                            continue
+                        return None
+                    rv2 = ds[0][3]["rv"]
+                    p = rv2.get("pl") if rv2["k"] in ("ref", "copyforderef") else (C.op_place(rv2["op"]) if rv2["k"] == "use" else None)
+                return None
+            if nm == "<std::path::PathBuf as std::clone::Clone>::clone" and any(l.kind == "param" and l.data == p_self for l in C.trace(b, t["args"][0])):
+                st[dest] = (frozenset([0]), False)
+            elif nm == SET_EXT:
+                tl = target(0)
+                if tl is not None:
+                    d, pend = st[tl]
+                    if d is not None:
+                        if C.op_const(t["args"][1]) == '""':
+                            d = frozenset(x - 1 for x in d)
+                        else:
+                            d = frozenset(x for x in d) | frozenset(x + 1 for x in d)
+                    st[tl] = (d, False)
+            elif nm in ("std::path::PathBuf::into_os_string", "std::path::PathBuf::as_mut_os_string", "std::path::PathBuf::into_boxed_path"):
+                tl = target(0)
+                if tl is not None:
+                    st[dest] = st[tl]
+            elif nm in ("std::ffi::OsString::with_capacity", "std::ffi::OsString::new"):
+                st[dest] = ("EMPTY", False)
+            elif nm == "std::ffi::OsString::push" and target(0) is not None and st[target(0)][0] == "EMPTY":
+                src = target(1)
+                st[target(0)] = st[src] if src is not None else (None, False)
+            elif nm == "std::ffi::OsString::push":
+                tl = target(0)
+                if tl is not None:
+                    d, pend = st[tl]
+                    lv = C.trace(b, t["args"][1])
+                    is_dot = any(l.kind == "const" and C.op_const(l.data) == '"."' for l in lv)
+                    if is_dot:
+                        st[tl] = (d, True)
+                    elif pend and d is not None:
+                        st[tl] = (frozenset(x + 1 for x in d), False)
+                    else:
+                        st[tl] = (None, False)
+            elif nm in ("std::path::PathBuf::add_extension",):
+                tl = target(0)
+                if tl is not None and st[tl][0] is not None:
+                    st[tl] = (frozenset(x + 1 for x in st[tl][0]), False)
+            elif nm in ("std::path::Path::with_added_extension",):
+                tl = target(0)
+                if tl is not None and st[tl][0] is not None:
+                    st[dest] = (frozenset(x + 1 for x in st[tl][0]), False)
+            elif nm in ("<std::path::PathBuf as std::convert::From<std::ffi::OsString>>::from", "<T as std::convert::Into<U>>::into",
+                        "<std::path::PathBuf as std::convert::From<T>>::from") or nm.endswith("::from") and "PathBuf" in nm:
+                tl = target(0)
+                if tl is not None:
+                    st[dest] = st[tl]
+            else:
+                # any other call taking the working path mutably makes its shape unknown
+                for i, a in enumerate(t["args"]):
+                    if i < len(t.get("arg_tys", [])) and t["arg_tys"][i]["ty"].startswith("&mut"):
+                        tl = target(i)
+                        if tl is not None:
+                            st[tl] = (None, False)
+        return st, tuple(env)
+
+    seen = set()
+    stack = [(0, {}, tuple([None] * len(flags)))]
+    while stack:
+        bb, st, env = stack.pop()
+        key = (bb, tuple(sorted((k, v) for k, v in st.items())), env)
+        if key in seen:
+            continue
+        seen.add(key)
+        st2, env2 = step_block(bb, st, env)
+        t = b.blocks[bb]["term"]
+        known = None
+        if t["k"] == "switch":
+            op = t["discr"]
+            if op["k"] in ("copy", "move") and not op["pl"]["p"] and op["pl"]["l"] in fidx:
+                known = env2[fidx[op["pl"]["l"]]]
+        for i, (s, lab) in enumerate(b.raw_succs(bb)):
+            if b.blocks[s]["cleanup"]:
+                continue
+            if known is not None and lab is not None:
+                val = int(known)
+                if (lab[0] == "val" and lab[1] != val) or (lab[0] == "otherwise" and val in lab[1]):
+                    continue
+            stack.append((s, st2, env2))
+    return results
+
+
+@rule("C11", "R11.7", floor=1)
+def r11_7(ctx):
+    """the output name has exactly one dotted component fewer than the source name (only `.txtpp` is removed), on every Ok path"""
+    b = body(ctx, "remove_txtpp")
+    if not b:
+        return
+    res = _component_deltas(ctx.lib, b)
+    if not res:
+        ctx.anchor_missing("Ok return of remove_txtpp carrying the working copy of the path")
+        return
+    res = [(bb, None if d == "EMPTY" else d) for bb, d in res]
+    bad = [(bb, d) for bb, d in res if d != frozenset([-1])]
+    if bad:
+        bb, d = bad[0]
+        ctx.violation(["component-count", "unknown" if d is None else ",".join(str(x) for x in sorted(d))],
+                      "remove_txtpp can return a name whose number of dot-separated components differs from the source's by %s (exactly -1 expected: "
+                      "only `.txtpp` is removed). PathBuf::set_extension REPLACES the last component when the remaining stem still contains a dot, so "
+                      "`a.b.txtpp.c` becomes `a.c` (not `a.b.c`) and an unrelated file can be overwritten" % ("an unknown amount" if d is None else sorted(d)),
+                      site=ctx.site(b, bb))
+    else:
+        ctx.ok("every Ok path of remove_txtpp removes exactly one dotted component (%d path states)" % len(res), site=ctx.site(b, res[0][0]))
